@@ -712,8 +712,8 @@ class Z80:
                     t = 17
                     self._rep(cyc, n2, 1)
                     cyc += [((self.sp - 1) & 0xFFFF, 3), ((self.sp - 2) & 0xFFFF, 3)]
+                    newpc = self.rd16(n1)       # operand is read before the push
                     self.push((pc + 3) & 0xFFFF)
-                    newpc = self.rd16(n1)
             elif z == 5:
                 if q == 0:
                     s.name = 'PUSH rp2'
@@ -729,8 +729,8 @@ class Z80:
                     cyc += [(n1, 3), (n2, 3)]
                     self._rep(cyc, n2, 1)
                     cyc += [((self.sp - 1) & 0xFFFF, 3), ((self.sp - 2) & 0xFFFF, 3)]
-                    self.push((pc + 3) & 0xFFFF)
                     newpc = self.rd16(n1)
+                    self.push((pc + 3) & 0xFFFF)
             elif z == 6:
                 s.name = 'ALU n'
                 ln, t = 2, 7
